@@ -5,7 +5,7 @@ From Coq Require Import ZArith QArith Qabs Qround Bool List String Reals Permuta
 From Verif Require Import Lib.Dyadic
   Model.C20_Units Proofs.C20_Units Gen.C20_UnitTxt Proofs.C20_UnitTxt
   Model.C20_Dms Proofs.C20_Dms
-  Model.C20_Lagrange Proofs.C20_Lagrange
+  Model.C20_Lagrange Proofs.C20_Lagrange Model.C20_Linear Proofs.C20_Linear
   Model.C20_Dop Proofs.C20_Dop
   Model.C20_Plate Proofs.C20_Plate.
 Import ListNotations.
@@ -67,6 +67,21 @@ Theorem dms_sign_of_value_refuted : ~ (from_dms true (to_dms (-1 # 3)) == (-1 # 
 Proof. exact sign_of_value_refuted_l. Qed.
 Print Assumptions dms_sign_of_value_refuted.
 
+(* the radian API over R: rad_to_dms r decomposes |r| * 180 / PI, dms_to_rad multiplies by PI / 180 *)
+Theorem dms_roundtrip_rad : forall r : R, dms_to_radR (rad_to_dmsR r) = r.
+Proof. exact dms_roundtrip_rad_l. Qed.
+Print Assumptions dms_roundtrip_rad.
+
+Theorem dms_rad_components_in_range : forall r : R,
+  (0 <= rdeg (rad_to_dmsR r))%Z /\ (0 <= rmin (rad_to_dmsR r) < 60)%Z /\ (0 <= rsec (rad_to_dmsR r) < 60)%R.
+Proof. exact rad_to_dms_range. Qed.
+Print Assumptions dms_rad_components_in_range.
+
+Theorem dms_rad_small_negative : forall r : R, (- (PI / 180) < r)%R -> (r < 0)%R ->
+  rneg (rad_to_dmsR r) = true /\ rdeg (rad_to_dmsR r) = 0%Z /\ dms_to_radR (rad_to_dmsR r) = r.
+Proof. exact rad_to_dms_small_negative. Qed.
+Print Assumptions dms_rad_small_negative.
+
 (* ============================================================ Lagrange interpolation
    lagrange1 o w pts t / lagrange o ncols w pts t: the value at x_new = t of the interpolator built from the
    samples pts with window w, or None where the code raises ValueError (window < 3, window > n, abscissae
@@ -125,6 +140,47 @@ Theorem scaling_irrelevant : forall srt bnd m s w pts t, ~ (s == 0)%Q ->
 Proof. exact scaling_irrelevant_l. Qed.
 Print Assumptions scaling_irrelevant.
 
+(* ============================================================ linear interpolation (interp1d kind="linear")
+   linear1 fl pts t / linear_nd fl pts t: LVal v, LNan (bounds_error=False outside the range) or LRaise (ValueError
+   outside the range by default; fewer than two samples / equal abscissae are outside the model's domain) *)
+Theorem linear_nodes : forall fl pts xk yk v,
+  In (xk, yk) pts -> linear1 fl pts xk = LVal v -> (v == yk)%Q.
+Proof. exact linear_nodes_l. Qed.
+Print Assumptions linear_nodes.
+
+Theorem linear_linear_in_y : forall fl (l : list (Q * (Q * Q))) k1 k2 t,
+  match linear1 fl (column fst l) t, linear1 fl (column snd l) t,
+        linear1 fl (column (fun v => k1 * fst v + k2 * snd v)%Q l) t with
+  | LVal r1, LVal r2, LVal r3 => (r3 == k1 * r1 + k2 * r2)%Q
+  | LNan, LNan, LNan => True
+  | LRaise, LRaise, LRaise => True
+  | _, _, _ => False
+  end.
+Proof. exact linear_linear_l. Qed.
+Print Assumptions linear_linear_in_y.
+
+Theorem linear_perm_invariant : forall fl pts pts' t,
+  Permutation pts pts' -> linear_nd fl pts t = linear_nd fl pts' t.
+Proof. exact linear_perm_l. Qed.
+Print Assumptions linear_perm_invariant.
+
+Theorem linear_ndim : forall fl ncols pts t c,
+  (forall p, In p pts -> List.length (snd p) = ncols) -> (c < ncols)%nat ->
+  match linear_nd fl pts t, linear1 fl (column (fun r => nth c r 0%Q) pts) t with
+  | LVal v, LVal r => List.length v = ncols /\ (nth c v 0 == r)%Q
+  | LNan, LNan => True
+  | LRaise, LRaise => True
+  | _, _ => False
+  end.
+Proof. exact linear_ndim_l. Qed.
+Print Assumptions linear_ndim.
+
+(* data on a straight line are reproduced everywhere, extrapolation included *)
+Theorem linear_reproduces_affine : forall fl pts c0 c1 t v,
+  (forall x y, In (x, y) pts -> (y == c0 + c1 * x)%Q) -> linear1 fl pts t = LVal v -> (v == c0 + c1 * t)%Q.
+Proof. exact linear_reproduces_affine_l. Qed.
+Print Assumptions linear_reproduces_affine.
+
 (* ============================================================ dilution of precision *)
 Theorem dop_pythagoras : forall M : mat,
   (0 <= M i0 i0 -> 0 <= M i1 i1 -> 0 <= M i2 i2 -> 0 <= M i3 i3 ->
@@ -150,6 +206,20 @@ Theorem dop_azimuth_invariant : forall s theta M M',
 Proof. exact dop_azimuth_invariant_l. Qed.
 Print Assumptions dop_azimuth_invariant.
 
+(* four satellites: the design matrix H is square; the cofactor matrix is H^-1 H^-T ... *)
+Theorem dop_square_case : forall s0 s1 s2 s3 G,
+  inverse_of (Hmat s0 s1 s2 s3) G -> inverse_of (normal [s0; s1; s2; s3]) (mmul G (mT G)).
+Proof. exact dop_square_case_l. Qed.
+Print Assumptions dop_square_case.
+
+(* ... and not (H H^T)^-1 = H^-T H^-1: witness north/east/south at the horizon + zenith, TDOP^2 = 1/2 versus 1 *)
+Theorem dop_square_wrong_product_refuted :
+  inverse_of (normal [wit0; wit1; wit2; wit3]) (mmul Gwit (mT Gwit)) /\
+  inverse_of (mmul (Hmat wit0 wit1 wit2 wit3) (mT (Hmat wit0 wit1 wit2 wit3))) (mmul (mT Gwit) Gwit) /\
+  (mmul Gwit (mT Gwit) i3 i3 = 1 / 2 /\ mmul (mT Gwit) Gwit i3 i3 = 1)%R.
+Proof. exact dop_square_wrong_product_l. Qed.
+Print Assumptions dop_square_wrong_product_refuted.
+
 (* ============================================================ plate motion *)
 Theorem velocity_perp_position : forall w r : vec, (dot (velocity w r) r == 0)%Q.
 Proof. exact velocity_perp_position_l. Qed.
@@ -164,6 +234,13 @@ Theorem velocity_perp_real : forall w r : R * R * R,
 Proof. exact velocityR_perp_l. Qed.
 Print Assumptions velocity_perp_real.
 
+(* Euler pole (lat, lon in degrees, omega in deg/Myr) -> cartesian (mas/yr) -> back, off the poles and the date line cut *)
+Theorem spherical_cartesian_roundtrip : forall lat lon om : R,
+  (-90 < lat < 90)%R -> (-180 < lon <= 180)%R -> (0 < om)%R ->
+  to_spherical (to_cartesian (lat, lon, om)) = (lat, lon, om).
+Proof. exact spherical_cartesian_roundtrip_l. Qed.
+Print Assumptions spherical_cartesian_roundtrip.
+
 (* ============================================================ non-vacuity *)
 Example units_nonempty : In (mkU "degree" Angle (1 # 180) 1) units /\ In (mkU "mas" Angle mas_q 1) units.
 Proof. split; vm_compute; tauto. Qed.
@@ -175,3 +252,5 @@ Example lagrange_example :
 Proof. right. eexists. split; [vm_compute; reflexivity|vm_compute; reflexivity]. Qed.
 Example dop_example : inverse_of mI mI.
 Proof. split; apply mmul_I_l. Qed.
+Example linear_example : exists v, linear1 FRaise [(3, 9); (0, 0); (1, 1)]%Q (2 # 1) = LVal v /\ (v == 5)%Q.
+Proof. eexists. split; [vm_compute; reflexivity|vm_compute; reflexivity]. Qed.
